@@ -1087,6 +1087,57 @@ Proof.
   rewrite Hs in H. exact H.
 Qed.
 
+(* ---- single children: with the name tests unable to fire, the pointer freed depends on the label alone *)
+Lemma disp_single_unreserved dt nd pl nl nn :
+  ~ In nn (reserved_names dt nd pl) -> disp_single dt nd pl nl nn = disp_single_lab dt nd pl nl.
+Proof.
+  intros H. unfold reserved_names in H. rewrite in_app_iff in H.
+  unfold disp_single, disp_single_lab.
+  assert (Er : refused nd pl nl nn = refused_lab nd pl nl).
+  { unfold refused, refused_lab. apply existsb_ext_in. intros r Hr. destruct r as [p t|w]; auto.
+    destruct (String.eqb pl p) eqn:E; simpl; auto. apply test_matches_lab. intros Hin. apply H. right.
+    apply in_concat. exists (test_names t). split; auto.
+    apply in_map_iff. exists (ND p t). rewrite E. auto. }
+  rewrite Er. destruct (refused_lab nd pl nl); auto.
+  destruct (find_dblock dt pl) as [[ps pty rows|w]|]; auto.
+  assert (Ef : find (row_matches pl nl nn) rows = find (row_matches_lab nl) rows).
+  { apply find_ext_in. intros r Hr. apply row_matches_lab_eq. intros Hin. apply H. left.
+    apply in_concat. exists (row_names r). split; auto. now apply in_map. }
+  now rewrite Ef.
+Qed.
+
+(* for ANY tables: the arm that frees the pointer of a single child whose label arm exists fires for that child WHATEVER
+   the caller named it (reserved words aside) ... *)
+Theorem single_dispatch_sound dt nd pl nl ptr nn :
+  smem ptr (disp_single_lab dt nd pl nl) = true -> ~ In nn (reserved_names dt nd pl) ->
+  smem ptr (disp_single dt nd pl nl nn) = true.
+Proof. intros H Hn. now rewrite disp_single_unreserved. Qed.
+
+(* ... and fires ONLY for it: a node of another label and an unreserved name is never dispatched to an arm selected by
+   this label (the arm taken is the one the label alone selects) *)
+Theorem single_dispatch_only dt nd pl nl' nn :
+  ~ In nn (reserved_names dt nd pl) -> disp_single dt nd pl nl' nn = disp_single_lab dt nd pl nl'.
+Proof. exact (disp_single_unreserved dt nd pl nl' nn). Qed.
+
+(* with a reserved name: freed, refused, or the triple is listed by [shadowed_singles] *)
+Theorem single_dispatch_reserved cn rnt dt nd gt pl nl ptr nn :
+  In (pl, nl, ptr) (label_freed_singles cn rnt dt nd gt) -> ~ In (pl, nl, nn) (shadowed_singles cn rnt dt nd gt) ->
+  smem ptr (disp_single dt nd pl nl nn) = true \/ refused nd pl nl nn = true.
+Proof.
+  intros Hu Hs.
+  assert (Hl : smem ptr (disp_single_lab dt nd pl nl) = true).
+  { unfold label_freed_singles in Hu. apply filter_In in Hu. now destruct Hu as [_ Hu]. }
+  destruct (in_dec string_dec nn (reserved_names dt nd pl)) as [Hr|Hr]; [|left; now apply single_dispatch_sound].
+  destruct (smem ptr (disp_single dt nd pl nl nn)) eqn:E1; [now left|].
+  destruct (refused nd pl nl nn) eqn:E2; [now right|].
+  exfalso. apply Hs. unfold shadowed_singles. apply in_concat.
+  eexists. split.
+  - apply in_map_iff. exists (pl, nl, ptr). split; [reflexivity|exact Hu].
+  - simpl. apply in_concat. eexists. split.
+    + apply in_map_iff. exists nn. split; [reflexivity|]. now apply dedup_in.
+    + rewrite E1, E2. simpl. now left.
+Qed.
+
 (* the lemmas exactly as Properties_C04.v states them *)
 Lemma initial_ok kok : Inv kok empty_parent /\ Rel empty_parent [].
 Proof. split; [apply Inv_empty|apply Rel_empty]. Qed.
